@@ -195,3 +195,51 @@ func init() {
 	families["launch"] = &family{gen: genLaunch, run: runLaunch, workers: 8,
 		rule: "launch: roles requested by Run for a configuration (default / per-step / per-connector parallel counts 0,1,2,3,8 x features; random configurations) vs the launch model; non-trivial = default count >= 2 or a connector present"}
 }
+
+// schedrej <running 0|1> <spec hex>: Schedule on a workflow that is not running, or with an invalid cron specification,
+// must return an error at once and start nothing. Observation: "<rejected 0|1> <roles requested by a scheduler>".
+func runSchedRej(kind string, a []string) string {
+	b := workflow.NewBuilder[Obj, st]("wf")
+	b.AddStep(st(1), func(ctx context.Context, r *workflow.Run[Obj, st]) (st, error) { return 0, nil }, st(2))
+	rr := &recRoles{}
+	w := b.Build(memstreamer.New(), memrecordstore.New(), rr, workflow.WithLogger(nullLogger{}))
+	ctx, cancel := context.WithCancel(context.Background())
+	defer cancel()
+	if a[0] == "1" {
+		w.Run(ctx)
+		defer w.Stop()
+		defer cancel()
+	}
+	ret := make(chan error, 1)
+	go func() { ret <- w.Schedule("f1", unhx(a[1])) }()
+	rejected := 0
+	select {
+	case err := <-ret:
+		if err != nil {
+			rejected = 1
+		}
+	case <-time.After(150 * time.Millisecond):
+	}
+	time.Sleep(5 * time.Millisecond)
+	n := 0
+	rr.mu.Lock()
+	for _, r := range rr.roles {
+		if strings.Contains(r, "scheduler") {
+			n++
+		}
+	}
+	rr.mu.Unlock()
+	return fmt.Sprintf("%d %d", rejected, n)
+}
+
+func init() {
+	families["schedrej"] = &family{run: runSchedRej, workers: 4,
+		gen: func(p *params, emit func(string, bool)) {
+			for _, running := range []string{"0", "1"} {
+				for _, spec := range []string{"* * * * *", "@hourly", "not a spec", "* * * *", "61 * * * *", ""} {
+					emit(fmt.Sprintf("schedrej %s %s", running, hx(spec)), true)
+				}
+			}
+		},
+		rule: "schedrej: Schedule on a workflow that is not running / with an invalid cron specification returns an error immediately and starts no process (2 x 6 cases, exhaustive over the grid)"}
+}
